@@ -1,4 +1,5 @@
 import Rare.Model.Expr.Build
+import Rare.Spec.C17Atoi
 /-!
 Helper lemmas for C17, part 0: the modelled `strconv.Atoi` / `ParseInt(s, 10, 64)` (`Rare.atoi`,
 `Rare/Base/GoInt.lean`).
@@ -12,9 +13,6 @@ Helper lemmas for C17, part 0: the modelled `strconv.Atoi` / `ParseInt(s, 10, 64
 -/
 namespace Rare.C17
 open Rare Rare.Expr
-
-/-- Decimal value of a digit string, most significant digit first. -/
-def decVal (ds : Bytes) : Nat := ds.foldl (fun a b => a * 10 + (b.toNat - 48)) 0
 
 theorem digitsVal_foldl (ds : Bytes) (acc : Nat) :
     digitsVal ds acc = ds.foldl (fun a b => a * 10 + (b.toNat - 48)) acc := by
